@@ -2,3 +2,4 @@ pub mod e2_overlay;
 pub mod e2_views;
 pub mod e3_bank;
 pub mod e6_codec;
+pub mod e4_staking;
